@@ -37,7 +37,7 @@ ASSUMPTIONS = ["pre-emption points are Python line events inside /repo/pddl_plus
                "change_signature is an in-place mutator by contract and is excluded"]
 REAL_VS_STUB = {"real": ["all of pddl_plus_parser exercised by the scripts; real threading.Thread objects"],
                 "stub": ["which thread holds the baton (scheduler)", "__hash__ seam", "cancellation raised from the tracer"]}
-TECHNIQUE = "deterministic simulation: baton-passing pre-emptive thread scheduler (sys.settrace) + cancellation faults + call histories; structural digests and per-call isolation baselines as oracle"
+TECHNIQUE = "deterministic simulation: baton-passing pre-emptive thread scheduler (sys.settrace) + cancellation faults (also aimed into first uses) + call histories (query toggle, object-less operators, API-made types, bystander domains); structural digests, process-global canary and per-call isolation baselines as oracle"
 DESIGN_REF = "DESIGN.md §5 C07, §3.4"
 LEVEL_TEXT = ("seeded exploration of thread interleavings (line granularity), call histories and cancellation points over a shared "
               "domain; every result is compared with its isolated execution and every input/earlier result is re-digested at "
